@@ -2094,3 +2094,51 @@ def scalarise_namedtuples(fn, world, modname):
     out = R().visit(out)
     ast.fix_missing_locations(out)
     return out
+
+
+def fold_result_copies(fn):
+    """`u = t` at the top level of the function body, where the local `t` is
+    not mentioned after that statement and the local `u` is not mentioned
+    before it: `t` is `u` under another name (the result variable of an
+    inlined helper, a temporary a clean-up introduced).  `t` is renamed to
+    `u` and the copy dropped, so rules that follow a flag by the role of the
+    variable see one variable.  Returns the number of copies folded."""
+    params = {a.arg for a in fn.args.args + fn.args.kwonlyargs +
+              fn.args.posonlyargs}
+    if fn.args.vararg:
+        params.add(fn.args.vararg.arg)
+    if fn.args.kwarg:
+        params.add(fn.args.kwarg.arg)
+    done = 0
+    again = True
+    while again:
+        again = False
+        for i, s in enumerate(fn.body):
+            if not (isinstance(s, ast.Assign) and len(s.targets) == 1 and
+                    isinstance(s.targets[0], ast.Name) and
+                    isinstance(s.value, ast.Name)):
+                continue
+            u, t = s.targets[0].id, s.value.id
+            if u == t or u in params or t in params:
+                continue
+
+            def mentions(stmts, name):
+                return any(isinstance(x, ast.Name) and x.id == name or
+                           isinstance(x, (ast.Global, ast.Nonlocal)) and
+                           name in x.names
+                           for st in stmts for x in ast.walk(st))
+            if mentions(fn.body[:i], u) or not mentions(fn.body[:i], t):
+                continue
+            if mentions(fn.body[i + 1:], t) and mentions(fn.body[i + 1:], u):
+                continue
+            # (alias propagation may already have replaced the later reads
+            # of u by t: then u is never mentioned again and t carries on)
+            for st in fn.body[:i] + fn.body[i + 1:]:
+                for x in ast.walk(st):
+                    if isinstance(x, ast.Name) and x.id == t:
+                        x.id = u
+            del fn.body[i]
+            done += 1
+            again = True
+            break
+    return done
